@@ -69,6 +69,10 @@ impl Story {
     }
 
     pub(crate) fn restore_state_snapshot(&mut self) {
+        #[cfg(feature = "verif")]
+        {
+            self.verif.counters.snapshots_restored += 1;
+        }
         // Patched state had temporarily hijacked our
         // VariablesState and set its own callstack on it,
         // so we need to restore that.
@@ -90,6 +94,10 @@ impl Story {
     }
 
     pub(crate) fn state_snapshot(&mut self) {
+        #[cfg(feature = "verif")]
+        {
+            self.verif.counters.snapshots_taken += 1;
+        }
         // tmp_state contains the new state and current state is stored in snapshot
         let mut tmp_state = self.state.copy_and_start_patching(false);
         std::mem::swap(&mut tmp_state, &mut self.state);
@@ -97,6 +105,10 @@ impl Story {
     }
 
     pub(crate) fn discard_snapshot(&mut self) {
+        #[cfg(feature = "verif")]
+        {
+            self.verif.counters.snapshots_discarded += 1;
+        }
         // Normally we want to integrate the patch
         // into the main global/counts dictionaries.
         // However, if we're in the middle of async
